@@ -286,6 +286,8 @@ LIN_SCALAR = [
 LIN_VECTOR = [
     "lambda v: Sym_Grad(v).ddot(S0)",
     "lambda v: Trace(v.grad) * kappa",
+    "lambda v: v.dot(bv)",
+    "lambda v: kappa * (bv @ v)",
 ]
 BIL_VECTOR = [
     "lambda u, v: Sym_Grad(u).ddot(Sym_Grad(v))",
@@ -297,6 +299,10 @@ BIL_VECTOR = [
     "lambda u, v: (Am @ u.grad).ddot(v.grad)",
     "lambda u, v: (Am @ u.grad @ Am).ddot(kappa * v.grad.T)",
     "lambda u, v: (bv @ u.grad).dot(v.grad @ bv)",
+    "lambda u, v: u.dot(v)",
+    "lambda u, v: kappa * u.dot(v) + c0 * u.grad.T.ddot(v.grad)",
+    "lambda u, v: (Am @ u).dot(v)",
+    "lambda u, v: (u @ bv) * (v @ bv)",
 ]
 
 
